@@ -131,7 +131,9 @@ def signCreated (entries : List Entry) (inner : Nat) : List (Nat × Nat) → Res
     match keyFor entries a with
     | none => .err (internal "Chosen spend address not found in wallet")
     | some k =>
-      if k = 0 then .panic "MustSignHash: invalid secret key"
+      -- a null secret key (watch-only entry): `SignInput` returns cipher.SignHash's error
+      -- (it went through cipher.MustSignHash and PANICKED before repair 509cd7e80)
+      if k = 0 then .err (internal "invalid secret key")
       else match signCreated entries inner r with
         | .ok l => .ok (.made k inner u :: l)
         | e => e
